@@ -66,6 +66,36 @@ claim('C18',
       'structural scan-skeleton extraction + NaN-aware-equality recognition through helper calls',
       'DESIGN.md §4 C18')
 
+claim('C10',
+      'Static may-alias and mutation analysis (flow-sensitive, interprocedural summaries over the resolved call '
+      'graph, numpy and dask paths of every backend table at once) over 49 public raster functions: P1 no mutator '
+      '(subscript store, augmented assignment, in-place method, out=, in-place numpy function, attribute store on '
+      'the input object) reaches a value that is or may share memory with a raster parameter, through any callee '
+      'including jitted kernels and block functions - the attribute stores present in the tree are an explicit '
+      'exception table (value-preserving rechunk, viewshed dtype widening, zonal.apply contract); P2 the array '
+      'wrapped into the result is fresh (trim/crop: a window of the right input); P3 the result is constructed with '
+      'the input raster\'s coords, dims and attrs (attrs copied where edited). Holds for every dtype and memory '
+      'layout by construction. Does not decide whether numba accepts read-only / non-contiguous inputs.',
+      'Trusted: the alias vocabulary (which NumPy/xarray/dask calls return views vs copies, DESIGN Appendix C); '
+      'unknown external calls are assumed to return fresh arrays and not to write their arguments.',
+      'interprocedural may-alias / mutation-summary dataflow analysis; construction-site pattern for identity',
+      'DESIGN.md §4 C10')
+claim('C11',
+      'Static purity/state analysis over every function of the package (GPU modules excluded): S1 no function '
+      'writes, rebinds (global) or hands out a module-level mutable object at call time, and no function/class '
+      'attribute is used as state (catches result caches keyed by a subset of the parameters); S2 the mutable '
+      'default arguments are never mutated, returned or stored; S3 no CPU kernel whose prange body has a shared write, '
+      'loop-carried read or scalar accumulator is compiled with parallel=True (the definition of ngjit included), '
+      'no cache=True on jitted closures over call parameters, no memoisation of functions of arrays/closure '
+      'factories; S4 globals read by jitted functions are bound once; S5 every global-RNG draw is dominated by '
+      'np.random.seed(<seed expression>) in the same function and the numpy/dask generator paths use the same seed '
+      'schedule; S6 per-block tasks (map_blocks/map_overlap/delayed) write only to locals.',
+      'Trusted: numba freezes globals at compile time and parallelises only with parallel=True; actual thread '
+      'timing is not observed (it follows from S3/S6). bump() is the documented unseeded exception; '
+      '_crosstab_df_dask is the one frozen S6 exception (unique consumer of its inputs).',
+      'effect/purity analysis: global-write detection, mutable-default escape, JIT option lattice, seed dominance',
+      'DESIGN.md §4 C11')
+
 ALL = ['C%02d' % i for i in range(1, 20)]
 
 
